@@ -45,8 +45,8 @@ int main(void) {
             h_n = 0; errno = H_ERRNO_PRE(eid); h_fault_kind = 0;
             if (!sigsetjmp(h_jb, 1)) {
                 h_armed = 1; alarm(3);
-                if (w == 1) ret = _strtok_s_chk(c == 0 ? buf : NULL, &dm, delim, &ptr, BOSU);
-                else ret = _wcstok_s_chk(c == 0 ? (wchar_t *)buf : NULL, &dm, wdelim, (wchar_t **)&ptr, BOSU);
+                if (w == 1) ret = _strtok_s_chk(c == 0 ? buf : NULL, &dm, delim, &ptr, H_KBOS(sid, dmax0 <= n, (long)n * w));
+                else ret = _wcstok_s_chk(c == 0 ? (wchar_t *)buf : NULL, &dm, wdelim, (wchar_t **)&ptr, H_KBOS(sid, dmax0 <= n, (long)n * w));
                 alarm(0); h_armed = 0;
             } else {
                 alarm(0);
